@@ -303,6 +303,24 @@ theorem respectsB_sound {tbl : List Access} {tr : List Ev} (h : respectsB tbl tr
   | none => rw [hr] at h2; cases h2
   | some s => rw [hr] at h2; exact Or.inl ⟨s, hr, holdsB_sound h2⟩
 
+/-- an execution without release / go / signal events: no synchronisation at all -/
+def Quiet (tr : List Ev) : Prop :=
+  ∀ (i : Nat) e, tr[i]? = some e → (∀ t m md, e ≠ .rel t m md) ∧ (∀ t c, e ≠ .spawn t c) ∧ (∀ t c, e ≠ .signal t c)
+
+/-- in such an execution happens-before never relates events of different goroutines -/
+theorem hb_same_tid_of_quiet {tr : List Ev} (hq : Quiet tr) {i j : Nat} (h : HB tr i j) :
+    ∃ a b, tr[i]? = some a ∧ tr[j]? = some b ∧ a.tid = b.tid := by
+  induction h with
+  | po _ hi hj ht => exact ⟨_, _, hi, hj, ht⟩
+  | sync _ hi _ _ => exact absurd rfl ((hq _ _ hi).1 _ _ _)
+  | go _ hi _ _ => exact absurd rfl ((hq _ _ hi).2.1 _ _)
+  | chan _ hi _ => exact absurd rfl ((hq _ _ hi).2.2 _ _)
+  | trans _ _ ih₁ ih₂ =>
+    obtain ⟨a, b, ha, hb, hab⟩ := ih₁
+    obtain ⟨b', c, hb', hc, hbc⟩ := ih₂
+    rw [hb] at hb'; cases hb'
+    exact ⟨a, c, ha, hc, hab.trans hbc⟩
+
 /-! ### the grouped table -/
 
 theorem keysInc_head_lt {g : Group} {gs : List Group} (h : keysInc (g :: gs) = true) :
